@@ -34,6 +34,8 @@ AllDevs == {
     "rff_fallback_any",         \* resolver.rs:1750 outgoing-calls resolver falls back to any definition
     "rff_no_self_exclusion",    \* call_hierarchy.rs:189 `def n(n)`: outgoing call of n resolves to n itself
     "cycle_name_level_graph",   \* resolver.rs:1515 cycle graph is built per NAME from definitions[name].first()
+    "test_module_imports_ignored", \* resolver.rs:194-204 imports made by the using (test) module are never consulted
+    "alias_import_lost",        \* imports.rs:178,522 `from m import a as b`: b is looked up as a fixture NAME, the alias is lost
     "memo_truncated",           \* imports.rs:421-458 visited-truncated import set is memoised
     "reexport_from_current_text"\* imports.rs:429-481 re-exports recomputed from current (maybe invalid) text
 }
@@ -172,10 +174,11 @@ ImpItems(ix, D, memo, visited, f, its, i) ==
                 THEN LET sub == ImpRec(ix, D, memo, visited, it.mod)
                      IN  [set |-> ix.fdefs[it.mod] \cup sub.set, visited |-> sub.visited,
                           memo |-> sub.memo, cut |-> sub.cut]
-                ELSE IF ~isPlug /\ it.k = "imp" /\ Known(ix, it.mod)
+                ELSE IF ~isPlug /\ it.k \in {"imp", "impas"} /\ Known(ix, it.mod)
                 THEN [set |-> IF "explicit_any_fixture_name" \in D
-                              THEN (IF ix.defs[it.name] # <<>> THEN {it.name} ELSE {})
-                              ELSE (IF PyProvides(SeenWs(ix), it.mod, it.name, {f}) # NoDef THEN {it.name} ELSE {}),
+                              THEN (IF it.name \in DOMAIN ix.defs /\ ix.defs[it.name] # <<>> THEN {it.name} ELSE {})
+                              ELSE (IF PyProvides(SeenWs(ix), it.mod, IF it.k = "impas" THEN it.marks[1] ELSE it.name, {f}) # NoDef
+                                    THEN {it.name} ELSE {}),
                       visited |-> visited, memo |-> memo, cut |-> FALSE]
                 ELSE [set |-> {}, visited |-> visited, memo |-> memo, cut |-> FALSE]
              rest == ImpItems(ix, D, here.memo, here.visited, f, its, i + 1)
@@ -202,7 +205,7 @@ LastByLine(seq, P(_)) ==
 ProvidedRec(ix, c, n, excl) ==
     LET d == PyViaImports(SeenWs(ix), c, n, {})
     IN  IF d = NoDef THEN NoRec
-        ELSE FirstWhere(ix.defs[n], LAMBDA r : r.file = d.file /\ r.idx = d.idx /\ Pass(r, excl))
+        ELSE FirstWhere(ix.defs[DefItem(SeenWs(ix), d).name], LAMBDA r : r.file = d.file /\ r.idx = d.idx /\ Pass(r, excl))
 
 RECURSIVE WalkChain(_, _, _, _, _, _, _)
 WalkChain(ix, D, memo, chain, j, n, excl) ==
@@ -226,11 +229,15 @@ WalkChain(ix, D, memo, chain, j, n, excl) ==
 
 ImplClosestM(ix, D, memo, f, n, excl) ==
     LET defs == ix.defs[n]
-        same == LastByLine(defs, LAMBDA r : r.file = f /\ Pass(r, excl))
+        own  == LastByLine(defs, LAMBDA r : r.file = f /\ Pass(r, excl))
+        \* repaired design: the using module's own imports are part of its namespace
+        same == IF own # NoRec \/ "test_module_imports_ignored" \in D \/ RoleOf[f] = "conftest" THEN own
+                ELSE ProvidedRec(ix, f, n, excl)
         walk == WalkChain(ix, D, memo, Chain(DirOf[f]), 1, n, excl)
         plug  == FirstWhere(defs, LAMBDA r : r.plugin /\ ~r.third /\ Pass(r, excl))
         third == FirstWhere(defs, LAMBDA r : r.third /\ Pass(r, excl))
-    IN  IF defs = <<>> THEN [rec |-> NoRec, memo |-> memo]
+    IN  \* `self.definitions.get(fixture_name)?` : no fixture of that NAME anywhere -> None at once
+        IF defs = <<>> /\ "alias_import_lost" \in D THEN [rec |-> NoRec, memo |-> memo]
         ELSE IF same # NoRec THEN [rec |-> same, memo |-> memo]
         ELSE IF walk.rec # NoRec THEN walk
         ELSE [rec |-> IF plug # NoRec THEN plug ELSE third, memo |-> walk.memo]
